@@ -117,26 +117,79 @@ Proof. reflexivity. Qed.
 Ltac gen_filter := match goal with |- context [filter ?p ?l] => generalize (filter p l) end.
 Ltac fin := first [ intros [= <-]; lia | discriminate ].
 
-(* the only validation that can fail silently: a CLOSED record with an extra key, on a value containing unknowns
-   (the `false` subschema reports nothing; see the comment in Model/Eval.v validate) *)
+(* two validations can fail silently (both mirror the implementation):
+   - a CLOSED record with an extra key, on a value containing unknowns: the `false` subschema reports nothing (see the
+     comment in Model/Eval.v validate) — [silent_accept];
+   - an UNKNOWN value whose schema is `false` where a typed argument is expected — at the top of the argument, as an
+     element of a known array / a prefix item of an unknown array (fn::join), as a declared property of known provider
+     inputs: validateSchemaType returns false without reporting (eval_validate.go:191-193) and evaluateTypedExpr's
+     fallback is skipped for values containing unknowns (eval.go:565) — the decidable class [never_arg] *)
 Definition silent_accept (a : accept) : bool :=
   match a with AccIn (InRecord _ _ true) => true | _ => false end.
 
-Lemma validate_fail_diag a v n :
+Definition never_arg (a : accept) (v : chain) : bool :=
+  match a with
+  | AccString => silent_never v
+  | AccArrString =>
+      match v with
+      | l :: _ =>
+          if l_unk l then
+            match top_sch v with
+            | ScNever => true
+            | ScArray prefix items => existsb sch_is_never (prefix ++ match items with Some ScNever | None => [] | Some i => [i] end)
+            | _ => false
+            end
+          else match l with LArr _ _ _ elems => existsb silent_never elems | _ => false end
+      | [] => false
+      end
+  | AccIn InAlways => false
+  | AccIn (InRecord props _ _) => silent_never v || existsb (fun p => silent_never (property (fst p) v)) props
+  end.
+
+Lemma existsb_false_all {A} (g : A -> bool) l : existsb g l = false -> forall x, In x l -> g x = false.
+Proof.
+  intros H x Hin. destruct (g x) eqn:E; [|reflexivity].
+  assert (existsb g l = true) as Ht by (apply existsb_exists; exists x; split; assumption). rewrite Ht in H. discriminate.
+Qed.
+
+Lemma filter_filter_all {A} (q p : A -> bool) l : (forall x, In x l -> q x = true) -> filter q (filter p l) = filter p l.
+Proof.
+  intros H. induction l as [|a l IH]; [reflexivity|]. cbn [filter].
+  assert (filter q (filter p l) = filter p l) as IH' by (apply IH; intros x Hx; apply H; now right).
+  destruct (p a); [|exact IH']. cbn [filter]. rewrite (H a (or_introl eq_refl)), IH'. reflexivity.
+Qed.
+
+(* outside [never_arg]: a rejected argument costs at least one diagnostic, with the closed-record exception *)
+Lemma validate_fail_diag_partial a v n :
+  never_arg a v = false ->
   validate a v = (false, n) -> silent_accept a = false \/ contains_unknowns v = false -> 1 <= n.
 Proof.
-  destruct a as [| |[|props required closed]]; unfold validate.
-  - destruct (top_is_string v); intros H _; revert H; fin.
-  - intros H _; revert H. destruct v as [|l r]; [fin|].
+  destruct a as [| |[|props required closed]]; unfold validate, never_arg.
+  - intros Hn. rewrite Hn. destruct (top_is_string v); intros H _; revert H; fin.
+  - intros Hn H _; revert Hn H. destruct v as [|l r]; [intros _; fin|].
     destruct (l_unk l).
-    + destruct (top_sch (l :: r)); try gen_filter; try (intros [|x bad]; cbn [length]); fin.
-    + destruct l; try gen_filter; try (intros [|x bad]; cbn [length]); fin.
+    + destruct (top_sch (l :: r)) as [| |ty|prefix items|ps ad|alts]; intros Hn.
+      * fin.
+      * discriminate Hn.
+      * fin.
+      * cbv zeta. rewrite filter_filter_all.
+        -- gen_filter. intros [|x bad]; cbn [length]; fin.
+        -- intros x Hx. apply negb_true_iff. exact (existsb_false_all _ _ Hn x Hx).
+      * fin.
+      * fin.
+    + destruct l as [s u c sc|s u c elems|s u c p]; intros Hn; try fin.
+      cbv zeta. rewrite filter_filter_all.
+      * gen_filter. intros [|x bad]; cbn [length]; fin.
+      * intros x Hx. apply negb_true_iff. exact (existsb_false_all _ _ Hn x Hx).
   - discriminate.
-  - destruct v as [|l r]; [intros H _; revert H; fin|].
+  - intros Hn. apply orb_false_iff in Hn. destruct Hn as [Hn1 Hn2].
+    destruct v as [|l r]; [intros H _; revert H; fin|].
     destruct l as [s u c sc|s u c e|s u c p]; cbn [l_unk]; destruct u.
-    all: try (intros H _; revert H; destruct (top_sch _); fin).
+    all: try (intros H _; revert H; unfold silent_never in Hn1; cbn [l_unk andb] in Hn1;
+              destruct (top_sch _); try discriminate Hn1; fin).
     all: try (intros H _; revert H; match goal with |- (false, 1) = _ -> _ => fin end).
-    cbv zeta.
+    cbv zeta. rewrite filter_filter_all.
+    2:{ intros x Hx. apply negb_true_iff. exact (existsb_false_all _ _ Hn2 x Hx). }
     match goal with |- (Nat.eqb (length ?m + length ?e + length ?b) 0, _) = _ -> _ =>
       assert (He : closed = false -> length e = 0%nat) by (intros ->; reflexivity);
       generalize dependent (length e); generalize (length m); generalize (length b) end.
@@ -148,14 +201,33 @@ Proof.
     + lia.
 Qed.
 
-(* the silent case exists (it mirrors the implementation: a `false` subschema rejects without reporting) *)
+(* inside [never_arg] the statement without the class is false: fn::toBase64 / fn::join / ... given an unknown of schema
+   `false` are rejected without any diagnostic *)
+Lemma validate_fail_diag_refuted :
+  exists a v, validate a v = (false, 0) /\ silent_accept a = false /\ never_arg a v = true.
+Proof. exists AccString, [unknown_layer false ScNever]. vm_compute. repeat split; reflexivity. Qed.
+
+(* the silent cases exist (they mirror the implementation: a `false` subschema rejects without reporting; an unknown of
+   schema `false` is rejected without reporting) *)
 Lemma validate_silent_witness :
   validate (AccIn (InRecord [] [] true)) [LObj false false ScAlways [("x", [unknown_layer false ScAlways])]] = (false, 0).
 Proof. vm_compute. reflexivity. Qed.
 
-Theorem eval_typed_failure f E x a id s :
+Lemma validate_silent_never_witness :
+  validate AccString [unknown_layer false ScNever] = (false, 0)
+  /\ validate AccArrString [unknown_layer false ScNever] = (false, 0)
+  /\ validate AccArrString [LArr false false (ScArray [ScNever; ScType "string"] (Some ScNever))
+                              [[unknown_layer false ScNever]; [str_layer false false "hello"]]] = (false, 0)
+  /\ validate AccArrString [unknown_layer false (ScArray [ScNever] (Some ScNever))] = (false, 0)
+  /\ validate (AccIn (InRecord [] [] false)) [unknown_layer false ScNever] = (false, 0)
+  /\ validate (AccIn (InRecord [("region", "string")] [] false))
+       [LObj false false (ScObject [("region", ScNever)] None) [("region", [unknown_layer false ScNever])]] = (false, 0).
+Proof. vm_compute. repeat split; reflexivity. Qed.
+
+Theorem eval_typed_failure_partial f E x a id s :
   let t := eval_typed W (S f) E x a id s in
   snd (fst t) = false ->
+  never_arg a (fst (fst t)) = false ->
   silent_accept a = false \/ contains_unknowns (fst (fst t)) = false ->
   nerr s + 1 <= nerr (snd t).
 Proof.
@@ -163,50 +235,53 @@ Proof.
   pose proof (le_nerr _ _ (eval_expr_mono W f E x false [] id s)) as Hm.
   destruct (eval_expr W f E x false [] id s) as [v s1]. cbn [fst snd] in *.
   destruct (validate a v) as [ok n] eqn:Ev. rewrite bind_eq. cbn [ret add_err fst snd nerr].
-  intros -> Hc. apply validate_fail_diag in Ev; [lia|exact Hc].
+  intros -> Hn Hc. apply validate_fail_diag_partial in Ev; [lia|exact Hn|exact Hc].
 Qed.
 
 Definition arg_id (id : eid) (i : nat) : eid := (fst id, snd id ++ [IIdx i]).
 
-Theorem tob64_bad_argument f E e xbase id s :
+(* a rejected argument: the builtin yields an unknown of its result type (always), and a diagnostic was counted unless
+   the argument is in the class [never_arg] *)
+Theorem tob64_bad_argument_split f E e xbase id s :
   let t := eval_typed W (S f) E e AccString (arg_id id 0) s in
   snd (fst t) = false ->
   eval_repr W (S (S f)) E (EToB64 e) xbase id s = ([unknown_layer false (ScType "string")], snd t)
-  /\ nerr s + 1 <= nerr (snd t).
+  /\ (never_arg AccString (fst (fst t)) = false -> nerr s + 1 <= nerr (snd t)).
 Proof.
-  intros t H. split; [|apply eval_typed_failure; [exact H|left; reflexivity]].
+  intros t H. split; [|intros Hn; apply eval_typed_failure_partial; [exact H|exact Hn|left; reflexivity]].
   rewrite eval_repr_S. unfold repr_body. rewrite bind_eq. fold (arg_id id 0). fold t.
   destruct t as [[v ok] s1]. cbn [fst snd] in *. subst ok. reflexivity.
 Qed.
 
-Theorem fromb64_bad_argument f E e xbase id s :
+Theorem fromb64_bad_argument_split f E e xbase id s :
   let t := eval_typed W (S f) E e AccString (arg_id id 0) s in
   snd (fst t) = false ->
   eval_repr W (S (S f)) E (EFromB64 e) xbase id s = ([unknown_layer false (ScType "string")], snd t)
-  /\ nerr s + 1 <= nerr (snd t).
+  /\ (never_arg AccString (fst (fst t)) = false -> nerr s + 1 <= nerr (snd t)).
 Proof.
-  intros t H. split; [|apply eval_typed_failure; [exact H|left; reflexivity]].
+  intros t H. split; [|intros Hn; apply eval_typed_failure_partial; [exact H|exact Hn|left; reflexivity]].
   rewrite eval_repr_S. unfold repr_body. rewrite bind_eq. fold (arg_id id 0). fold t.
   destruct t as [[v ok] s1]. cbn [fst snd] in *. subst ok. reflexivity.
 Qed.
 
-Theorem fromjson_bad_argument f E e xbase id s :
+Theorem fromjson_bad_argument_split f E e xbase id s :
   let t := eval_typed W (S f) E e AccString (arg_id id 0) s in
   snd (fst t) = false ->
   eval_repr W (S (S f)) E (EFromJSON e) xbase id s = ([unknown_layer false ScAlways], snd t)
-  /\ nerr s + 1 <= nerr (snd t).
+  /\ (never_arg AccString (fst (fst t)) = false -> nerr s + 1 <= nerr (snd t)).
 Proof.
-  intros t H. split; [|apply eval_typed_failure; [exact H|left; reflexivity]].
+  intros t H. split; [|intros Hn; apply eval_typed_failure_partial; [exact H|exact Hn|left; reflexivity]].
   rewrite eval_repr_S. unfold repr_body. rewrite bind_eq. fold (arg_id id 0). fold t.
   destruct t as [[v ok] s1]. cbn [fst snd] in *. subst ok. reflexivity.
 Qed.
 
-Theorem join_bad_argument f E d vs xbase id s :
+Theorem join_bad_argument_split f E d vs xbase id s :
   let t1 := eval_typed W (S f) E d AccString (arg_id id 0) s in
   let t2 := eval_typed W (S f) E vs AccArrString (arg_id id 1) (snd t1) in
   snd (fst t1) = false \/ snd (fst t2) = false ->
   eval_repr W (S (S f)) E (EJoin d vs) xbase id s = ([unknown_layer false (ScType "string")], snd t2)
-  /\ nerr s + 1 <= nerr (snd t2).
+  /\ ((snd (fst t1) = false /\ never_arg AccString (fst (fst t1)) = false)
+      \/ (snd (fst t2) = false /\ never_arg AccArrString (fst (fst t2)) = false) -> nerr s + 1 <= nerr (snd t2)).
 Proof.
   intros t1 t2 H. split.
   - rewrite eval_repr_S. unfold repr_body. rewrite bind_eq. fold (arg_id id 0). fold t1.
@@ -215,9 +290,46 @@ Proof.
     destruct H as [-> | ->]; [reflexivity|]. destruct dok; reflexivity.
   - pose proof (le_nerr _ _ (eval_typed_mono W (S f) E d AccString (arg_id id 0) s)) as M1.
     pose proof (le_nerr _ _ (eval_typed_mono W (S f) E vs AccArrString (arg_id id 1) (snd t1))) as M2.
-    fold t1 in M1. fold t2 in M2. destruct H as [H|H].
-    + pose proof (eval_typed_failure f E d AccString (arg_id id 0) s H (or_introl eq_refl)) as H'. fold t1 in H'. lia.
-    + pose proof (eval_typed_failure f E vs AccArrString (arg_id id 1) (snd t1) H (or_introl eq_refl)) as H'. fold t2 in H'. lia.
+    fold t1 in M1. fold t2 in M2. intros [[H1 Hn]|[H2 Hn]].
+    + pose proof (eval_typed_failure_partial f E d AccString (arg_id id 0) s H1 Hn (or_introl eq_refl)) as H'. fold t1 in H'. lia.
+    + pose proof (eval_typed_failure_partial f E vs AccArrString (arg_id id 1) (snd t1) H2 Hn (or_introl eq_refl)) as H'. fold t2 in H'. lia.
+Qed.
+
+(* the statements of the builtins with the class as ONE extra hypothesis *)
+Theorem tob64_bad_argument_partial f E e xbase id s :
+  let t := eval_typed W (S f) E e AccString (arg_id id 0) s in
+  snd (fst t) = false ->
+  never_arg AccString (fst (fst t)) = false ->
+  eval_repr W (S (S f)) E (EToB64 e) xbase id s = ([unknown_layer false (ScType "string")], snd t)
+  /\ nerr s + 1 <= nerr (snd t).
+Proof. intros t H Hn. destruct (tob64_bad_argument_split f E e xbase id s H) as [A B]. split; [exact A|exact (B Hn)]. Qed.
+
+Theorem fromb64_bad_argument_partial f E e xbase id s :
+  let t := eval_typed W (S f) E e AccString (arg_id id 0) s in
+  snd (fst t) = false ->
+  never_arg AccString (fst (fst t)) = false ->
+  eval_repr W (S (S f)) E (EFromB64 e) xbase id s = ([unknown_layer false (ScType "string")], snd t)
+  /\ nerr s + 1 <= nerr (snd t).
+Proof. intros t H Hn. destruct (fromb64_bad_argument_split f E e xbase id s H) as [A B]. split; [exact A|exact (B Hn)]. Qed.
+
+Theorem fromjson_bad_argument_partial f E e xbase id s :
+  let t := eval_typed W (S f) E e AccString (arg_id id 0) s in
+  snd (fst t) = false ->
+  never_arg AccString (fst (fst t)) = false ->
+  eval_repr W (S (S f)) E (EFromJSON e) xbase id s = ([unknown_layer false ScAlways], snd t)
+  /\ nerr s + 1 <= nerr (snd t).
+Proof. intros t H Hn. destruct (fromjson_bad_argument_split f E e xbase id s H) as [A B]. split; [exact A|exact (B Hn)]. Qed.
+
+Theorem join_bad_argument_partial f E d vs xbase id s :
+  let t1 := eval_typed W (S f) E d AccString (arg_id id 0) s in
+  let t2 := eval_typed W (S f) E vs AccArrString (arg_id id 1) (snd t1) in
+  snd (fst t1) = false \/ snd (fst t2) = false ->
+  never_arg AccString (fst (fst t1)) = false /\ never_arg AccArrString (fst (fst t2)) = false ->
+  eval_repr W (S (S f)) E (EJoin d vs) xbase id s = ([unknown_layer false (ScType "string")], snd t2)
+  /\ nerr s + 1 <= nerr (snd t2).
+Proof.
+  intros t1 t2 H [Hn1 Hn2]. destruct (join_bad_argument_split f E d vs xbase id s H) as [A B]. split; [exact A|].
+  apply B. destruct H as [H|H]; [left|right]; split; assumption.
 Qed.
 
 (* invalid base64 / JSON text in an otherwise valid, known string argument *)
@@ -389,3 +501,82 @@ Theorem self_import_is_cycle name s :
 Proof. cbn. rewrite String.eqb_refl. reflexivity. Qed.
 
 End FAILS.
+
+(* ---------------- 7. the silent rejection of an unknown of schema `false`, on a whole program ----------------
+   provider p declares {type: object} and returns {tok: "hello"}; while CHECKING, ${o.tok} is an unknown whose schema is
+   `false` (sch_property of a record that neither declares the member nor has additionalProperties); the typed builtins
+   reject it, yield an unknown of their result type, and NOTHING is reported.  The Go implementation does the same
+   (eval_validate.go:191-193, eval.go:565). *)
+Definition never_world : world :=
+  {| w_envs := [];
+     w_provs := [("p", {| pv_in := InAlways; pv_out := ScObject [] None;
+                          pv_beh := PConst (XObj false false [("tok", XScalar false false (SStr "hello"))]) |});
+                 ("q", {| pv_in := InRecord [("region", "string")] [] false; pv_out := ScAlways; pv_beh := PEcho |})];
+     w_ctx := []; w_check := true; w_show := false; w_fault := None; w_decrypt := fun _ _ => None |}.
+
+Definition never_ectx : ectx :=
+  {| ec_name := "root"; ec_root := "root"; ec_values := [("o", EOpen "p" (EObj []))]; ec_base := [];
+     ec_imports := imports_value []; ec_context := context_chain never_world "root" "root" |}.
+
+Definition never_ref : expr := ESym [AName "o"; AName "tok"].
+Definition never_id : eid := ("root", [IKey "c"]).
+
+Lemma never_ref_value :
+  fst (eval_expr never_world 20 never_ectx never_ref false [] (arg_id never_id 0) st0) = [unknown_layer false ScNever]
+  /\ nerr (snd (eval_expr never_world 20 never_ectx never_ref false [] (arg_id never_id 0) st0)) = 0.
+Proof. vm_compute. split; reflexivity. Qed.
+
+Theorem eval_typed_failure_refuted :
+  exists W f E x a id s,
+    let t := eval_typed W (S f) E x a id s in
+    snd (fst t) = false /\ silent_accept a = false /\ nerr (snd t) = nerr s.
+Proof.
+  exists never_world, 20%nat, never_ectx, never_ref, AccString, (arg_id never_id 0), st0.
+  vm_compute. repeat split; reflexivity.
+Qed.
+
+Theorem tob64_bad_argument_refuted :
+  exists W f E e id s,
+    let t := eval_typed W (S f) E e AccString (arg_id id 0) s in
+    snd (fst t) = false /\ nerr (snd t) = nerr s.
+Proof. exists never_world, 20%nat, never_ectx, never_ref, never_id, st0. vm_compute. split; reflexivity. Qed.
+
+Theorem join_bad_argument_refuted :
+  exists W f E d vs id s,
+    let t1 := eval_typed W (S f) E d AccString (arg_id id 0) s in
+    let t2 := eval_typed W (S f) E vs AccArrString (arg_id id 1) (snd t1) in
+    (snd (fst t1) = false \/ snd (fst t2) = false) /\ nerr (snd t2) = nerr s.
+Proof.
+  exists never_world, 20%nat, never_ectx, (EStr "-"), (EArr [never_ref; EStr "hello"]), never_id, st0.
+  vm_compute. split; [right|]; reflexivity.
+Qed.
+
+(* ... as the delimiter of fn::join and as declared property of provider inputs with a record schema *)
+Theorem join_delimiter_refuted :
+  let t1 := eval_typed never_world 21 never_ectx never_ref AccString (arg_id never_id 0) st0 in
+  snd (fst t1) = false /\ nerr (snd t1) = 0.
+Proof. vm_compute. split; reflexivity. Qed.
+
+Theorem record_input_refuted :
+  let t := eval_typed never_world 21 never_ectx (EObj [("region", never_ref)])
+             (AccIn (InRecord [("region", "string")] [] false)) (arg_id never_id 0) st0 in
+  snd (fst t) = false /\ nerr (snd t) = 0.
+Proof. vm_compute. split; reflexivity. Qed.
+
+(* the whole program: every consumer is unknown and the check reports no error at all *)
+Definition never_program : envdef :=
+  {| ed_imports := [];
+     ed_values := [("o", EOpen "p" (EObj []));
+                   ("c", EJoin (EStr "-") (EArr [never_ref; EStr "hello"]));
+                   ("d", EJoin never_ref (EArr [EStr "a"; EStr "b"]));
+                   ("e", EToB64 never_ref); ("f", EFromB64 never_ref); ("g", EFromJSON never_ref);
+                   ("h", EOpen "q" (EObj [("region", never_ref)]))] |}.
+
+Theorem never_program_silent :
+  let o := run 100 never_world "root" never_program in
+  ob_errors o = false /\ ob_oof o = false
+  /\ ob_value o = Some (XObj false false
+       [("c", XScalar false true SNull); ("d", XScalar false true SNull); ("e", XScalar false true SNull);
+        ("f", XScalar false true SNull); ("g", XScalar false true SNull); ("h", XScalar false true SNull);
+        ("o", XScalar false true SNull)]).
+Proof. vm_compute. repeat split; reflexivity. Qed.
